@@ -11,6 +11,10 @@ the model `Model/C11.lean` of the algorithmic parts of the conversion:
 * `pack_idempotent`       the PL-level view of the packed table is the table that was packed
 * `ligkern_meaning_preserved`    `C05.rule` of the TFM-level program = `C05.rule` of the PL-level program
 * `sem_check_sound`       the driver's rule comparison is a proved checker
+* `normalise_preserves_rule`, `normalise_canonical`, `pack_nwf`, `normalise_pack`, `normalise_idempotent`
+                          tftopl's normalisation of the instruction list (unreachable words dropped, SKIPs and
+                          labels renumbered) preserves `C05.rule`, yields a well-formed all-reachable program,
+                          inverts `pack`, and the second trip reproduces the first trip's result
 * `kerns_roundtrip`       `pack_kerns ∘ unpack_kerns = id`
 * `dedup_sort_idempotent`, `table_canonical`, `index_preserved`, `index_absent`
                           the dimension tables are a canonical form and keep every character's value
@@ -29,6 +33,11 @@ import TexcraftModel.Lemmas.C11Kerns
 import TexcraftModel.Lemmas.C11Dims
 import TexcraftModel.Lemmas.C11Rule
 import TexcraftModel.Lemmas.C11Sem
+import TexcraftModel.Model.C11Norm
+import TexcraftModel.Lemmas.C11Norm
+import TexcraftModel.Lemmas.C11NormReach
+import TexcraftModel.Lemmas.C11NormPack
+import TexcraftModel.Lemmas.C11Parse
 
 namespace C11.Thm
 open C11
@@ -135,6 +144,105 @@ example :
         C05.rule (toC05 P (unpackAll P.instrs pe) (unpackKerns p.instrs).2) (some 65) 68 = some (.kern 7) ∧
         C05.rule (toC05 P (unpackAll P.instrs pe) (unpackKerns p.instrs).2) (some 65) 66 = some (.lig 67 .neither)) := by
   refine ⟨by decide +kernel, by decide +kernel, _, _, rfl, by decide +kernel, by decide +kernel, by decide +kernel⟩
+
+/-! ## The TFM→PL→TFM normalisation of the instruction list (`Model/C11Norm.lean`) -/
+
+/-- **normalise_preserves_rule.** Dropping the unreachable words, renumbering the SKIPs over
+them and turning entry points into label positions (`normalise` = closed form of what the
+LIGTABLE printer writes and the parser reads back) does not change `C05.rule` on any left
+character or boundary and right character, whatever the kerns array. Hypotheses `nwf`:
+SKIPs inside the table, entry points address words, the left-boundary entry point addresses a
+word other than the last, no reachable word is a redirect word. -/
+theorem normalise_preserves_rule {p : Prog} {es : List (Nat × Nat)} (h : nwf p es = true) (ks : List Int) :
+    ∀ (l : Option Nat) (r : Nat),
+      C05.rule (toC05 (normalise p es).1 (normalise p es).2 ks) l r = C05.rule (toC05 p es ks) l r :=
+  normalise_rule h ks
+
+/-- **normalise_canonical.** The normalised program is a well-formed PL-level program (`wf`: no
+redirect words, SKIPs inside, every label in front of a step) in which *every* step is
+reachable from a label, and it labels the same characters. -/
+theorem normalise_canonical {p : Prog} {es : List (Nat × Nat)} (h : nwf p es = true) :
+    wf (normalise p es).1 (normalise p es).2 = true ∧ AllReach (normalise p es).1 (normalise p es).2 ∧
+      (normalise p es).2.map (·.1) = es.map (·.1) :=
+  normalise_wf_allReach h
+
+/-- **pack_nwf.** The table `pack` builds from a well-formed PL-level program, with its
+entry points unpacked as the reader unpacks them, satisfies `nwf`. -/
+theorem pack_nwf {q : Prog} {es : List (Nat × Nat)} {P : Prog} {pe : List (Nat × Nat)}
+    (h : pack q es = some (P, pe)) (hwf : wf q es = true) : nwf P (unpackAll P.instrs pe) = true :=
+  pack_nwf_aux h hwf
+
+/-- **normalise_pack.** `normalise ∘ unpack ∘ pack = id` on a well-formed PL-level program all
+of whose steps are reachable: what tftopl makes of the table pltotf wrote is the program
+(and the label positions) pltotf was given. -/
+theorem normalise_pack {q : Prog} {es : List (Nat × Nat)} {P : Prog} {pe : List (Nat × Nat)}
+    (h : pack q es = some (P, pe)) (hwf : wf q es = true) (hall : AllReach q es) :
+    normalise P (unpackAll P.instrs pe) = (q, es) :=
+  normalise_pack_aux h hwf hall
+
+/-- **normalise_idempotent (second trip = identity on the lig/kern program).** Start from any
+TFM-level program `P` with unpacked entry points `es` (`nwf`). First trip: tftopl prints
+`normalise P es = (q, es')`, pltotf packs it into `P1`. Second trip: tftopl's view of `P1` is
+again exactly `(q, es')` — so pltotf, a function of that view, writes `P1` again — and `P1`
+has the same rule function as `P`. (Literally `normalise (normalise P)` is not the
+operation the pipeline performs: the second `normalise` runs on the *packed* table.) -/
+theorem normalise_idempotent {P : Prog} {es : List (Nat × Nat)} {P1 : Prog} {pe1 : List (Nat × Nat)}
+    (h : nwf P es = true)
+    (hp : pack (normalise P es).1 (normalise P es).2 = some (P1, pe1)) (ks : List Int) :
+    normalise P1 (unpackAll P1.instrs pe1) = normalise P es ∧
+      ∀ (l : Option Nat) (r : Nat),
+        C05.rule (toC05 P1 (unpackAll P1.instrs pe1) ks) l r = C05.rule (toC05 P es ks) l r := by
+  obtain ⟨hwf, hall, _⟩ := normalise_wf_allReach h
+  refine ⟨normalise_pack_aux hp hwf hall, ?_⟩
+  intro l r
+  rw [rule_pack hp hwf ks l r, normalise_rule h ks l r]
+
+/-- **printParse_eq_normalise.** The transcribed passes — `printItems` (the LIGTABLE part of
+`pl::File::lower`, driven by `reachable_array` and `ReachableIter`'s adjusted SKIPs) followed
+by `parseItems` (the `LigTable` arm of `pl::File::from_ast` and the final SKIP 0 → STOP) —
+compose to the closed form `normalise` the theorems above are about: same instruction list,
+same boundary data, and every character gets the same label position; whenever no reachable
+word is a redirect word and the characters are distinct. -/
+theorem printParse_eq_normalise {p : Prog} {es : List (Nat × Nat)}
+    (hnr : noReachRedirect p.instrs (reachable p es) = true) (hnd : (es.map (·.1)).Nodup) :
+    (printParse p es).1 = (normalise p es).1 ∧
+      ∀ c, lookup (printParse p es).2 c = lookup (normalise p es).2 c :=
+  printParse_normalise hnr hnd
+
+/-- Non-vacuity: a TFM-level table with a boundary-char carrier in front, an unreachable step
+that a SKIP jumps over, and a left-boundary word behind. The unreachable step and the two
+redirect words disappear, `SKIP 1` becomes `SKIP 0`, the labels move from 1, 4 to 0, 2. -/
+example :
+    let P : Prog := ⟨[⟨none, 65, .redirect 0 true⟩, ⟨some 1, 66, .kern 5⟩, ⟨none, 67, .kern 6⟩,
+      ⟨none, 68, .lig 69 7⟩, ⟨none, 70, .kern 7⟩, ⟨none, 0, .redirect 4 false⟩], some 4, some 65⟩
+    let es := [(97, 1)]
+    nwf P es = true ∧
+      normalise P es = (⟨[⟨some 0, 66, .kern 5⟩, ⟨none, 68, .lig 69 7⟩, ⟨none, 70, .kern 7⟩], some 2, some 65⟩, [(97, 0)]) ∧
+      printParse P es = normalise P es ∧
+      (∃ P1 pe1, pack (normalise P es).1 (normalise P es).2 = some (P1, pe1) ∧
+        normalise P1 (unpackAll P1.instrs pe1) = normalise P es) := by
+  refine ⟨by decide, by decide, by decide, _, _, rfl, by decide⟩
+
+/-- **Known finding C11-f (negation at the witness).** A redirect word that a chain reaches
+(word 2, reached by falling through from word 1) while a SKIP jumps over it (word 0, `SKIP 2`):
+`noReachRedirect` fails, the printed `SKIP 2` now leaves the three-step table, and the pair
+`(97, 67)` loses its kern — `C05.rule` differs before and after. -/
+example :
+    let P : Prog := ⟨[⟨some 2, 65, .kern 5⟩, ⟨some 0, 66, .kern 6⟩, ⟨none, 0, .redirect 0 true⟩, ⟨none, 67, .kern 7⟩], none, none⟩
+    let es := [(97, 0), (98, 1)]
+    nwf P es = false ∧
+      C05.rule (toC05 P es []) (some 97) 67 = some (.kern 7) ∧
+      C05.rule (toC05 (printParse P es).1 (printParse P es).2 []) (some 97) 67 = none := by
+  refine ⟨by decide, by decide, by decide⟩
+
+/-- Outside `nwf` the rule does change — a SKIP chain that runs into a redirect word whose
+right character matches (the "phantom" pair of C05-a) loses that pair, which C05's `rule`
+reports as a non-executed `none` anyway; and a left-boundary entry point that addresses the
+*last* word is dropped (the TFtoPL quirk `reachable_array` reproduces). Witness for the
+latter: -/
+example :
+    let P : Prog := ⟨[⟨none, 66, .kern 5⟩], some 0, none⟩
+    nwf P [] = false ∧ (normalise P []).1.lb = none ∧ (normalise P []).1.instrs = [] := by decide
 
 /-- **sem_check_sound.** The comparison the driver runs on the instruction lists decoded
 from t0 and t1 (`firstRuleDiff`, which searches only left characters with an entry point and
